@@ -8,6 +8,7 @@ from specs import axmlwriter as W
 
 APKF = "androguard/core/apk/__init__.py"
 META = {
+    "technique": 'contract-based deductive verification: symbolic execution of the real functions against sidecar contracts (z3/cvc5) for the proved units; bounded contract evaluation (enumerated scope / independent writer) for the rest',
     "level": "other",
     "partial": True,
     "level_text": "Proof (pure rules): APK._format_value completes a component name with the package by Android's rule for every "
